@@ -70,6 +70,12 @@ func NewAuthorizer(cfg Config) *Authorizer {
 		if name == "" {
 			continue
 		}
+		if prev, ok := principals[name]; ok {
+			// A principal listed more than once gets the union of its entries;
+			// a later entry must not silently replace an earlier deny (or allow).
+			p.Allow = append(append([]Rule(nil), prev.Allow...), p.Allow...)
+			p.Deny = append(append([]Rule(nil), prev.Deny...), p.Deny...)
+		}
 		principals[name] = p
 	}
 	return &Authorizer{
